@@ -174,6 +174,7 @@ func c16GenLarge(rng *rand.Rand) c16Dir {
 	contents := []string{"supported1", "supported2", "supported1", "supported2", "supported1", "unknown-set", "malformed", "empty"}
 	d.Entries = append(d.Entries, c16Entry{Name: "root.admin", Content: "supported1"})
 	used["root"] = true
+	oneAdmin := rng.Intn(2) == 0
 	for len(d.Entries) < n {
 		name := ref.ValidName(rng)
 		if used[name] {
@@ -181,6 +182,9 @@ func c16GenLarge(rng *rand.Rand) c16Dir {
 		}
 		used[name] = true
 		ext := []string{".user", ".admin", ".user"}[rng.Intn(3)]
+		if oneAdmin {
+			ext = ".user" // root is the only administrator: wherever the listing returns it, it must count
+		}
 		d.Entries = append(d.Entries, c16Entry{Name: name + ext, Content: contents[rng.Intn(len(contents))]})
 	}
 	switch rng.Intn(4) {
